@@ -109,6 +109,9 @@ def call_kwargs(call):
         kw["reset"] = True
     if call.get("opt") is not None:
         kw["optimizer_params"] = mat(copy.deepcopy(call["opt"]))
+        for v in kw["optimizer_params"].values():
+            if isinstance(v, dict) and "type" in v:
+                v["type"] = _opt_type(v["type"])
     if call.get("sched") is not None:
         kw["scheduler_params"] = mat(copy.deepcopy(call["sched"]))
     if call.get("cons") is not None:
@@ -118,7 +121,23 @@ def call_kwargs(call):
     if call.get("snap") is not None:
         kw["store_snapshots"] = True
         kw["store_snapshots_every"] = int(call["snap"])
+    if call.get("opt_list") is not None:       # the list / tuple form of optimizer_params: default type and learning rate
+        kw["optimizer_params"] = list(call["opt_list"]) if call.get("opt_list_form") != "tuple" else tuple(call["opt_list"])
+    if call.get("autograd") is not None:
+        kw["autograd"] = bool(call["autograd"])
+    if call.get("device") is not None:
+        kw["device"] = call["device"]
+    if "batch" in call:                        # batch_size as given (None, the number of positions, or an invalid value)
+        kw["batch_size"] = call["batch"]
     return kw
+
+
+def _opt_type(v):
+    """`"class:SGD"` stands for the optimizer class itself (the `isinstance(opt_type, type)` branch of set_optimizer)"""
+    import torch
+    if isinstance(v, str) and v.startswith("class:"):
+        return getattr(torch.optim, v[len("class:"):])
+    return v
 
 
 def split_program(calls, j, off):
@@ -129,19 +148,36 @@ def split_program(calls, j, off):
     first = dict(c)
     first["n"] = off
     cont = {"n": c["n"] - off}
-    if c.get("loss_type"):
+    if c.get("loss_type") and not c.get("bad"):       # (a rejected call runs no iteration: nothing of it is continued)
         cont["loss_type"] = c["loss_type"]
+    if c.get("autograd") is not None:
+        cont["autograd"] = c["autograd"]
     return calls[:j] + [first], [cont] + calls[j + 1:]
 
 
-def run_calls(p, calls, pin=None):
+def run_calls(p, calls, pin=None, log=None, after=None):
+    """execute the call program on `p`.  A call marked ``"bad"`` is one the generator expects the library to reject:
+    its exception is caught (the caller carries on with the next call) and its class name is appended to `log`
+    (None for a call that returned).  Exceptions of unmarked calls propagate.  `after(p, call, outcome)` is called
+    after every call (session-state observation)."""
     with warnings.catch_warnings():
         warnings.simplefilter("ignore")
         with pt.no_gc(), contextlib.redirect_stdout(io.StringIO()):
             for i, c in enumerate(calls):
                 if pin is not None and i == 0:
                     p.rng = int(pin)
-                p.reconstruct(**call_kwargs(c))
+                outcome = None
+                if c.get("bad"):
+                    try:
+                        p.reconstruct(**call_kwargs(c))
+                    except Exception as e:      # rejected call: the object stays in use
+                        outcome = type(e).__name__
+                else:
+                    p.reconstruct(**call_kwargs(c))
+                if log is not None:
+                    log.append(outcome)
+                if after is not None:
+                    after(p, c, outcome)
     return p
 
 
@@ -304,6 +340,30 @@ def all_opt_views(p):
     return {k: opt_view(model_of(p, k)) for k in KEYS}
 
 
+def session_view(p, prev_ids=None):
+    """discrete session state after a call, per model: optimizer / scheduler present, optimizer bound to the live
+    parameters (its param group is, by identity and in order, what get_optimization_parameters() returns now),
+    a stored optimizer / scheduler configuration, whether the parameters are new tensor objects since `prev_ids`;
+    plus iteration count and LR-history keys/lengths.  Returns (view, ids)."""
+    view, ids = {}, {}
+    for k in KEYS:
+        m = model_of(p, k)
+        cur = [id(t) for t in opt_params(m)]
+        ids[k] = cur
+        o = m.optimizer
+        view[k] = {"opt": o is not None,
+                   "sched": m.scheduler is not None,
+                   "bound": None if o is None else [id(t) for g in o.param_groups for t in g["params"]] == cur,
+                   "sched_bound": None if m.scheduler is None else (m.scheduler.optimizer is o),
+                   "cfg": bool(m.optimizer_params), "scfg": bool(m.scheduler_params),
+                   "nstate": None if o is None else len(o.state),
+                   "fresh": None if prev_ids is None else not (set(cur) & set(prev_ids[k]))}
+    view["num_iters"] = int(p.num_iters)
+    view["lrs"] = {k: len(v) for k, v in sorted(p._iter_lrs.items())}
+    view["_keep"] = [t for k in KEYS for t in opt_params(model_of(p, k))]     # keeps the tensors alive: ids stay unique
+    return view, ids
+
+
 # ---------------------------------------------------------------------------------------
 # event trace
 
@@ -369,8 +429,10 @@ class Trace:
                               "nloss": len(p._iter_losses)})
 
         def reset(p):
-            real_reset(p)
-            tr.events.append({"ev": "reset", "obj": id(p)})
+            try:
+                real_reset(p)
+            finally:        # the histories are cleared before the optimizers are rebuilt (which may be rejected)
+                tr.events.append({"ev": "reset", "obj": id(p)})
 
         def step(p):
             masks = {}
@@ -421,7 +483,8 @@ def save_and_reload(p, cfg, scratch, tag="ck"):
         with contextlib.redirect_stdout(io.StringIO()):
             p.save(path, mode="o", store=cfg["store"], save_raw_data=bool(cfg["raw"]), verbose=0)
             if cfg["raw"] or cfg.get("raw_path"):
-                r = Ptychography.from_file(path)      # with the data in the file, or reloading them from their own file
+                # with the data in the file, or reloading them from their own file
+                r = Ptychography.from_file(path, device=cfg["load_device"]) if cfg.get("load_device") else Ptychography.from_file(path)
             else:
                 r = Ptychography.from_file(path, dset=make_dataset(cfg))
     names_after = sorted(r.__dict__.keys())
